@@ -64,11 +64,11 @@ theorem buildJob_spec {rank R E t w b fuel} {cx : Ctx} {X : Nat → Prop} (hE : 
     | dirty =>
       have ho := hown (by intro h; cases h)
       dsimp only
-      have hown' : w1.recs t = w.recs t ∨ (w1.recs t = { w.recs t with isGenerated := false, failed := some 0 } ∧ w1.fs t = none) := by
+      have hown' : w1.recs t = w.recs t ∨ (w1.recs t = { w.recs t with isGenerated := false, isOverride := false, failed := some 0 } ∧ w1.fs t = none) := by
         rcases ho with h | ⟨h, hf⟩
         · exact Or.inl h
         · exact Or.inr ⟨h, by rw [congrFun hdx.same.1 t]; exact hf⟩
-      rw [startSelf_own E d cx t (w.recs t) w1 hown']
+      rw [startSelf_own E d cx t (w.recs t) w1 (hi.base.recOk t).noOvr hown']
       have hV : VerR w1 cx.runid t → (w1.recs t).isGenerated = false := by
         intro hv
         rcases hown' with h | ⟨h, _⟩
